@@ -87,13 +87,15 @@ type Exec struct {
 	W  *Worker
 	tb *TB
 
-	sched      *scheduler
-	timers     []*modelTimer
-	timerByPtr map[*value]*modelTimer
-	locks      map[*value]*lockState
-	wgs        map[*value]*int
-	pools      map[*value][]value
-	tlsServer  map[*value]*tlsState
+	sched         *scheduler
+	timers        []*modelTimer
+	timerByPtr    map[*value]*modelTimer
+	locks         map[*value]*lockState
+	wgs           map[*value]*int
+	pools         map[*value][]value
+	tlsServer     map[*value]*tlsState
+	tlsClientFail int
+	tlsDeadline   tuple // (deadline, ok) of the context given to the last modelled HandshakeContext
 
 	fmtSym   Str // symbolic Error()/String() text of the operand toNative last gave up on
 	fmtSymOK bool
